@@ -826,7 +826,16 @@ func genWildExpr(rng *rand.Rand, depth, bits int, unsigned bool, names []string)
 		case 1:
 			return renderInt(rng, randInRange(rng, bits, true))
 		case 2:
-			return fmt.Sprint([]int{bits - 1, bits, bits + 1, 63, 64, 65}[rng.Intn(6)])
+			return fmt.Sprint([]int{bits - 1, bits, bits + 1, 63, 64, 65, 100}[rng.Intn(7)])
+		case 3:
+			if !unsigned {
+				// negative operands: arithmetic right shifts, sign handling of << | &
+				v := randInRange(rng, bits, false)
+				if v.Sign() > 0 {
+					v.Neg(v)
+				}
+				return v.String()
+			}
 		}
 		return renderInt(rng, big.NewInt(int64(rng.Intn(300))))
 	}
@@ -890,6 +899,130 @@ func abbrevS(s string, n int) string {
 	return s
 }
 
+// depImporter resolves the go_package of an imported schema to the package type-checked from its own
+// generated source; everything else goes to the source importer.
+type depImporter struct {
+	base types.Importer
+	deps map[string]*types.Package
+}
+
+func (d depImporter) Import(path string) (*types.Package, error) {
+	if p, ok := d.deps[path]; ok {
+		return p, nil
+	}
+	return d.base.Import(path)
+}
+
+// checkWith type-checks one generated file as package `name` with extra importable packages.
+func (c *checker) checkWith(name string, src []byte, deps map[string]*types.Package) (*types.Package, []string) {
+	f, err := parser.ParseFile(c.fset, name+".go", src, parser.AllErrors)
+	if err != nil {
+		return nil, []string{"parse: " + err.Error()}
+	}
+	var errs []string
+	conf := types.Config{Importer: depImporter{c.imp, deps}, Error: func(e error) { errs = append(errs, e.Error()) }}
+	pkg, _ := conf.Check(name, c.fset, []*ast.File{f}, &types.Info{})
+	return pkg, errs
+}
+
+// importCases: a schema split over two files. What the importing file uses from the imported one varies:
+// the import list of the generated file (time, the dependency's package, iohelp ...) must follow from the
+// types that are actually emitted, in both import modes.
+func runImportCases(c *checker, work string, rng *rand.Rand, n int) {
+	depFields := []string{"date when;", "guid id;", "Colour c;", "map[date, string] log;", "date[] times;", "string name;", "int64 n;", "map[string, Colour[]] pal;"}
+	mainUses := []string{"Dep d;", "Dep[] ds;", "map[string, Dep] dm;", "Colour c;", "Colour[] cs;", "DepMsg m;", "map[guid, DepMsg] mm;"}
+	for i := 0; i < n; i++ {
+		dir, err := os.MkdirTemp(work, "imp")
+		if err != nil {
+			return
+		}
+		var dep, main strings.Builder
+		dep.WriteString("const string go_package = \"example.com/bebopdep\";\nenum Colour : uint16 {\n\tRed = 1;\n\tBlue = 2;\n}\nstruct Dep {\n")
+		for k, j := 0, 1+rng.Intn(3); k < j; k++ {
+			fmt.Fprintf(&dep, "\t%s\n", strings.Replace(depFields[rng.Intn(len(depFields))], ";", fmt.Sprint(k)+";", 1))
+		}
+		dep.WriteString("}\nmessage DepMsg {\n")
+		for k, j := 0, 1+rng.Intn(2); k < j; k++ {
+			fmt.Fprintf(&dep, "\t%d -> %s\n", k+1, strings.Replace(depFields[rng.Intn(len(depFields))], ";", fmt.Sprint(k)+";", 1))
+		}
+		dep.WriteString("}\n")
+		main.WriteString("import \"./dep.bop\"\nconst string go_package = \"example.com/bebopmain\";\n")
+		kind := []string{"struct", "message"}[rng.Intn(2)]
+		fmt.Fprintf(&main, "%s Main {\n", kind)
+		for k, j := 0, 1+rng.Intn(3); k < j; k++ {
+			u := strings.Replace(mainUses[rng.Intn(len(mainUses))], ";", fmt.Sprint(k)+";", 1)
+			if kind == "message" {
+				fmt.Fprintf(&main, "\t%d -> %s\n", k+1, u)
+			} else {
+				fmt.Fprintf(&main, "\t%s\n", u)
+			}
+		}
+		main.WriteString("}\n")
+		os.WriteFile(filepath.Join(dir, "dep.bop"), []byte(dep.String()), 0o644)
+		os.WriteFile(filepath.Join(dir, "main.bop"), []byte(main.String()), 0o644)
+		// combined mode merges both files into one package, where two go_package constants would clash:
+		// the dependency of the combined variant carries none
+		os.WriteFile(filepath.Join(dir, "depc.bop"), []byte(strings.Replace(dep.String(), "const string go_package = \"example.com/bebopdep\";\n", "", 1)), 0o644)
+		os.WriteFile(filepath.Join(dir, "mainc.bop"), []byte(strings.Replace(main.String(), "./dep.bop", "./depc.bop", 1)), 0o644)
+		text := []byte("// main.bop\n" + main.String() + "// dep.bop\n" + dep.String())
+		gen := func(file string, mode bebop.ImportGenerationMode, o options) ([]byte, error) {
+			fh, err := os.Open(filepath.Join(dir, file))
+			if err != nil {
+				return nil, err
+			}
+			defer fh.Close()
+			f, _, err := bebop.ReadFile(fh)
+			if err != nil {
+				return nil, err
+			}
+			st := o.settings()
+			st.PackageName = ""
+			st.ImportGenerationMode = mode
+			var out bytes.Buffer
+			err = f.Generate(&out, st)
+			return out.Bytes(), err
+		}
+		for _, ob := range []int{0, 31, rng.Intn(32)} {
+			o := optsFromBits(ob)
+			if o.private {
+				continue // private definitions cannot be used across packages
+			}
+			for _, mode := range []bebop.ImportGenerationMode{bebop.ImportGenerationModeCombined, bebop.ImportGenerationModeSeparate} {
+				mname := map[bebop.ImportGenerationMode]string{bebop.ImportGenerationModeCombined: "combined", bebop.ImportGenerationModeSeparate: "separate"}[mode]
+				st("C12").Evaluations++
+				st("C12").distinct[hex.EncodeToString(text)+mname+o.String()] = struct{}{}
+				mainFile := "main.bop"
+				if mode == bebop.ImportGenerationModeCombined {
+					mainFile = "mainc.bop"
+				}
+				src, err := gen(mainFile, mode, o)
+				if err != nil {
+					st("C12").Distribution["imports/"+mname+"/rejected"]++
+					continue
+				}
+				st("C12").Distribution["imports/"+mname+"/generated"]++
+				deps := map[string]*types.Package{}
+				if mode == bebop.ImportGenerationModeSeparate {
+					dsrc, err := gen("dep.bop", mode, o)
+					if err != nil {
+						continue
+					}
+					dp, derrs := c.checkWith("bebopdep", dsrc, nil)
+					if len(derrs) > 0 {
+						fail("C12", "oracle", classifyGoError(derrs[0]), "imports", o.String()+" mode="+mname, text, "go/types check of the generated dependency", "no error", strings.Join(derrs[:min(len(derrs), 3)], " | "), "accepted schema, generated code does not build")
+						continue
+					}
+					deps["example.com/bebopdep"] = dp
+				}
+				if _, errs := c.checkWith("bebopmain", src, deps); len(errs) > 0 {
+					fail("C12", "oracle", classifyGoError(errs[0]), "imports", o.String()+" mode="+mname, text, "go/types check of the generated source", "no error", strings.Join(errs[:min(len(errs), 3)], " | "), "accepted schema with an import, generated code does not build")
+				}
+			}
+		}
+		os.RemoveAll(dir)
+	}
+}
+
 func fixtures(repo string, dirs ...string) [][]byte {
 	var out [][]byte
 	for _, d := range dirs {
@@ -909,7 +1042,7 @@ func main() {
 	seed := flag.Int64("seed", 1, "")
 	tier := flag.String("tier", "quick", "")
 	modelPath := flag.String("model", "", "")
-	_ = flag.String("work", "", "")
+	work := flag.String("work", "", "")
 	repo := flag.String("repo", "/repo", "")
 	out := flag.String("out", "", "")
 	replay := flag.String("replay", "", "")
@@ -1012,12 +1145,22 @@ func main() {
 			st("C15").Samples = append(st("C15").Samples, fmt.Sprintf("%q", abbrev(sc.text, 300)))
 		}
 	}
+	// 3b. schemas split over two files, both import modes
+	nImp := 40
+	if *tier == "thorough" {
+		nImp = 400
+	}
+	if *work == "" {
+		*work = os.TempDir()
+	}
+	os.MkdirAll(*work, 0o755)
+	runImportCases(c, *work, rng, nImp)
 	// 4. [flags] expressions with overflowing intermediates: real parser vs the model of eval_expr.go
 	for i := 0; i < nOwn; i++ {
 		runWild(genWild(rng, i))
 	}
 	rules := map[string]string{
-		"C12": "streams: spec (Lean-generated schemas, all constructs, random layout), fixture (testdata/base, testdata/incompatible without imports; all 32 option sets), own (consts / enums / flags / opcodes). Each accepted schema x option set: the generated source must parse and type-check with go/types (source importer on /repo's bebop and iohelp), and every struct type's pointer must implement bebop.Record. distinct = distinct (schema, option set)",
+		"C12": "streams: imports (a schema split over two files, what the importer uses from the imported file varies; combined and separate mode; the dependency is type-checked first and offered to the importer), spec (Lean-generated schemas, all constructs, random layout), fixture (testdata/base, testdata/incompatible without imports; all 32 option sets), own (consts / enums / flags / opcodes). Each accepted schema x option set: the generated source must parse and type-check with go/types (source importer on /repo's bebop and iohelp), and every struct type's pointer must implement bebop.Record. distinct = distinct (schema, option set)",
 		"C15": "own stream: values built first (all 8 integer base types incl. extremes, hex and decimal, negative; floats in f/g/e form, integers, inf / -inf / nan; strings from escape pieces; bools; guids; [flags] expression trees to depth 3 over | & << >> with every intermediate in range; opcodes as hex / decimal / 4 characters), then rendered; the parsed File and the go/constant values of the type-checked generated package must equal them exactly; enum members must be typed constants of an enum type with the declared base type. spec stream: expected from the parsed File, whose dump must equal the Lean Spec's. wild stream: [flags] expression trees with overflowing shifts / out-of-range intermediates: real ReadFile vs the Lean model of eval_expr.go, same verdict and same File. distinct = distinct (schema, constant)",
 	}
 	res := map[string]interface{}{"engine": "gencheck", "seed": *seed, "tier": *tier}
